@@ -388,18 +388,18 @@ def request(R):
          func=init, node=(port[0] if port else None), construct='default port')
 
 
-def limit(R):
+def limit(R, RID='C10.limit', recv='frame_parser.ClientFrameParser'):
     # the header read in the frame parser
-    q = 'frame_parser.FrameParser.parse'
-    g = R.cfg(q, 'frame_parser.ClientFrameParser')
+    q = R.prog.find_method(recv, 'parse').qual
+    g = R.cfg(q, recv)
     ru = [(n, c) for n in g.live_nodes() for c in n.calls
           if any(t.kind == 'ctor' and t.cls == 'parser._ReadUntil' for t in R.types.call_targets(c, g.ctx))]
-    need(len(ru) == 1, 'FrameParser.parse: expected one read_until')
+    need(len(ru) == 1, '%s: expected one read_until' % q)
     c = ru[0][1]
     init = R.func('parser._ReadUntil.__init__')
     mb = arg_of(c, init, 'max_bytes')
     sep = arg_of(c, init, 'sep')
-    R.ob('C10.limit', 'header read bounded by 16 KiB', mb is not None and fold(R, mb, g.ctx) == 16 * 1024
+    R.ob(RID, 'header read bounded by 16 KiB', mb is not None and fold(R, mb, g.ctx) == 16 * 1024
          and fold(R, sep, g.ctx) == b'\r\n\r\n', 'read_until(%s, max_bytes=%s)' % (U(sep), U(mb)), func=q, node=c)
     # check_length semantics
     q2 = 'parser._ReadUntil.check_length'
@@ -413,11 +413,11 @@ def limit(R):
                 ok = True
     bad = [sorted(l) for l in path_conditions(R, g2, rd2, g2.entry, g2.exit)
            if ('%s > self.max_bytes' % pos, False) not in l and ('self.max_bytes is not None', False) not in l]
-    R.ob('C10.limit', 'check_length raises iff pos > max_bytes', ok and not bad, 'check_length paths: %s' % bad[:1], func=q2,
+    R.ob(RID, 'check_length raises iff pos > max_bytes', ok and not bad, 'check_length paths: %s' % bad[:1], func=q2,
          node=None, construct='check_length')
     # Parser.feed: both sub-arms of the read-until arm
     q3 = 'parser.Parser.feed'
-    g3 = R.cfg(q3, 'frame_parser.ClientFrameParser')
+    g3 = R.cfg(q3, recv)
     rd3 = ReachingDefs(g3)
     f3 = R.func(q3)
     finds = [(n, c_) for n in g3.live_nodes() for c_ in n.calls if isinstance(c_.func, ast.Attribute) and c_.func.attr == 'find']
@@ -438,12 +438,12 @@ def limit(R):
     heads = [n for n in g3.live_nodes() if n.kind == 'loophead']
     cn = [n for (n, _) in checks]
     ok_nf = all_paths_pass(g3, nf, cn, heads + [g3.exit], skip_edge=nx)
-    R.ob('C10.limit', 'bound checked when the terminator is not yet seen', ok_nf and bool(cn),
+    R.ob(RID, 'bound checked when the terminator is not yet seen', ok_nf and bool(cn),
          'an unterminated header block can grow without the 16 KiB check', func=f3, node=t.ast,
          construct='length check, separator-not-found arm')
     sn = [n for (n, c_) in sends if n in g3.reachable(fo, skip_edge=nx)]
     ok_fo = bool(sn) and all_paths_pass(g3, fo, cn, sn, skip_edge=nx)
-    R.ob('C10.limit', 'bound checked when the terminator is found', ok_fo and bool(cn),
+    R.ob(RID, 'bound checked when the terminator is found', ok_fo and bool(cn),
          'a terminated header block larger than 16 KiB is accepted when its terminator arrives in the same read',
          func=f3, node=t.ast, construct='length check, separator-found arm')
     # right quantity: found arm checks the header end position (derived from the find result), not the buffer size
@@ -451,23 +451,23 @@ def limit(R):
         a = c_.args[0]
         if n in g3.reachable(fo, skip_edge=nx) and n not in g3.reachable(nf, avoid={t}, skip_edge=nx):
             names = {x.id for x in walk_no_nested(a) if isinstance(x, ast.Name)}
-            R.ob('C10.limit', 'found arm checks the header length', idx in names and 'len(' not in U(a),
+            R.ob(RID, 'found arm checks the header length', idx in names and 'len(' not in U(a),
                  'with the terminator found the check is applied to %s (frame bytes after the header in the same read '
                  'would count against the header limit)' % U(a), func=f3, node=c_)
         elif n in g3.reachable(nf, skip_edge=nx):
-            R.ob('C10.limit', 'not-found arm checks the accumulated length', U(a) in ('len(_buffer)', 'len(self._buffer)'),
+            R.ob(RID, 'not-found arm checks the accumulated length', U(a) in ('len(_buffer)', 'len(self._buffer)'),
                  'without terminator the check is applied to %s' % U(a), func=f3, node=c_)
         else:
-            R.ob('C10.limit', 'length check placement', n in g3.succ_reach(fn, skip_edge=nx) and
+            R.ob(RID, 'length check placement', n in g3.succ_reach(fn, skip_edge=nx) and
                  g3.dominates(fn, n), 'the length check runs before the separator search on %s: bytes that follow a '
                  'complete header in the same read are counted against the header limit' % U(a), func=f3, node=c_)
     # closure: ParseError from check_length is thrown into the coroutine
     q4 = q3 + '._check_length'
-    g4 = R.cfg(q4, 'frame_parser.ClientFrameParser')
+    g4 = R.cfg(q4, recv)
     thr = [(n, c_) for n in g4.live_nodes() for c_ in n.calls if isinstance(c_.func, ast.Attribute) and c_.func.attr == 'throw']
     okt = len(thr) == 1 and any(fr.kind == 'handler' for fr in thr[0][0].frames)
     esc = R.exc.escapes(g4.ctx)
-    R.ob('C10.limit', 'length failure reaches the caller as ParseError', okt and 'parser.ParseError' in esc,
+    R.ob(RID, 'length failure reaches the caller as ParseError', okt and 'parser.ParseError' in esc,
          '_check_length escapes: %s' % sorted(esc), func=q4, node=None, construct='_check_length throw')
 
 
